@@ -17,7 +17,7 @@ func init() {
 		"streamGRPC.RecvMsg", "streamGRPC.SendMsg", "streamGRPC.SendHeader", "streamHTTP.SendMsg", "streamHTTP.RecvMsg",
 		"streamHTTP.decodeRequestArgs", "streamHTTP.readMsg", "streamHTTP.writeMsg", "streamHTTP.getCodec",
 		"streamWS.RecvMsg", "streamWS.SendMsg",
-		"webWriter.seeHeaders", "webWriter.writeTrailer", "webWriter.flushWithTrailer",
+		"webWriter.seeHeaders", "webWriter.writeTrailer", "webWriter.flushWithTrailer", "webWriter.Write", "webWriter.WriteHeader", "webWriter.Flush",
 		"AsHTTPBodyReader", "AsHTTPBodyWriter", "negotiateContentType", "negotiateContentEncoding",
 		"newIncomingContext", "setOutgoingHeader", "setOutgoingMetadata", "setOutgoingTrailer",
 		"decodeBinHeader", "encodeBinHeader", "decodeTimeout", "timeoutUnit", "encodeGrpcMessage", "growcap",
